@@ -1213,6 +1213,60 @@ theorem never_exec (s : S1) (h : List Op) (hr : s.log.rule = .never) : (s.exec h
     simp only [S1.exec]
     rw [ih _ this.1, this.2]
 
+/-! ## held references: what a writer operation through one does to the shares -/
+
+@[simp] theorem rebind_shares (w : World) (s : Nat) (f : String) : (w.rebind s f).shares = w.shares := rfl
+@[simp] theorem rebind_stamp (w : World) (s : Nat) (f : String) : (w.rebind s f).stamp = w.stamp := rfl
+
+/-- a mutation through a held reference is the mutation of the field itself (live reference), or
+leaves every share as it was -/
+theorem viaHeld_cases (w : World) (i : Nat) (live : Held → World) (dead : Val → Val) :
+    (∃ h, w.held[i]? = some h ∧ h.live = true ∧ w.viaHeld i live dead = live h) ∨
+    ((w.viaHeld i live dead).shares = w.shares ∧ (w.viaHeld i live dead).stamp = w.stamp ∧
+      ∀ h, w.held[i]? = some h → h.live = false) := by
+  unfold World.viaHeld
+  split
+  · rename_i hn; exact Or.inr ⟨rfl, rfl, fun h hh => by rw [hn] at hh; cases hh⟩
+  · rename_i h hh
+    split
+    · rename_i hv
+      exact Or.inr ⟨rfl, rfl, fun h' hh' => by
+        have : h' = h := by rw [hh] at hh'; exact (Option.some.inj hh').symm
+        subst this; simp [Held.live, hv]⟩
+    · rename_i hv
+      have hv' : h.void = false := by simpa using hv
+      split
+      · rename_i ho
+        exact Or.inl ⟨h, hh, by simp [Held.live, hv', ho], rfl⟩
+      · rename_i v ho
+        exact Or.inr ⟨rfl, rfl, fun h' hh' => by
+          have : h' = h := by rw [hh] at hh'; exact (Option.some.inj hh').symm
+          subst this; simp [Held.live, ho]⟩
+
+theorem apply_happend_cases (w : World) (i : Nat) (e : Elem) :
+    (∃ h, w.held[i]? = some h ∧ h.live = true ∧ w.apply (.happend i e) = w.appendTo h.sid h.f e) ∨
+    ((w.apply (.happend i e)).shares = w.shares ∧ (w.apply (.happend i e)).stamp = w.stamp ∧
+      ∀ h, w.held[i]? = some h → h.live = false) := by
+  simp only [World.apply]; exact viaHeld_cases _ _ _ _
+
+theorem apply_hsetitem_cases (w : World) (i : Nat) (k : String) (a : Atom) :
+    (∃ h, w.held[i]? = some h ∧ h.live = true ∧ w.apply (.hsetitem i k a) = w.setitemTo h.sid h.f k a) ∨
+    ((w.apply (.hsetitem i k a)).shares = w.shares ∧ (w.apply (.hsetitem i k a)).stamp = w.stamp ∧
+      ∀ h, w.held[i]? = some h → h.live = false) := by
+  simp only [World.apply]; exact viaHeld_cases _ _ _ _
+
+theorem apply_hold_shares (w : World) (s : Nat) (f : String) :
+    (w.apply (.hold s f)).shares = w.shares ∧ (w.apply (.hold s f)).stamp = w.stamp := by
+  simp only [World.apply]; repeat' split
+  all_goals exact ⟨rfl, rfl⟩
+
+theorem appendTo_stamp (w : World) (s : Nat) (f : String) (e : Elem) : (w.appendTo s f e).stamp = w.stamp := by
+  unfold World.appendTo; simp only []; split <;> rfl
+
+theorem setitemTo_stamp (w : World) (s : Nat) (f k : String) (a : Atom) :
+    (w.setitemTo s f k a).stamp = w.stamp := by
+  unfold World.setitemTo; simp only []; split <;> rfl
+
 /-! ## the clock -/
 
 def opStamp (st : Option Int) : Op → Option Int
@@ -1221,8 +1275,19 @@ def opStamp (st : Option Int) : Op → Option Int
   | _ => st
 
 theorem apply_stamp (w : World) (o : WOp) : (w.apply o).stamp = opStamp w.stamp (.w o) := by
-  cases o <;> simp [World.apply, opStamp, World.setShare]
-  all_goals (split <;> rfl)
+  cases o with
+  | append s f e => exact appendTo_stamp w s f e
+  | setitem s f k a => exact setitemTo_stamp w s f k a
+  | hold s f => exact (apply_hold_shares w s f).2
+  | happend i e =>
+    rcases apply_happend_cases w i e with ⟨h, _, _, he⟩ | ⟨_, hs, _⟩
+    · rw [he]; exact appendTo_stamp w _ _ e
+    · exact hs
+  | hsetitem i k a =>
+    rcases apply_hsetitem_cases w i k a with ⟨h, _, _, he⟩ | ⟨_, hs, _⟩
+    · rw [he]; exact setitemTo_stamp w _ _ k a
+    · exact hs
+  | _ => simp [World.apply, opStamp, World.setShare]
 
 theorem timed_cons (st : Option Int) (op : Op) (rest : List Op) (h : timed st (op :: rest) = true) :
     ∃ t t', st = some t ∧ opStamp st op = some t' ∧ t ≤ t' ∧ timed (some t') rest = true := by
@@ -1246,6 +1311,10 @@ theorem timed_cons (st : Option Int) (op : Op) (rest : List Op) (h : timed st (o
       | append s f a => exact ⟨t, t, rfl, rfl, Int.le_refl t, by simpa [timed] using h⟩
       | setitem s f k a => exact ⟨t, t, rfl, rfl, Int.le_refl t, by simpa [timed] using h⟩
       | push s e => exact ⟨t, t, rfl, rfl, Int.le_refl t, by simpa [timed] using h⟩
+      | hold s2 f2 => exact ⟨t, t, rfl, rfl, Int.le_refl t, by simpa [timed] using h⟩
+      | happend i2 e2 => exact ⟨t, t, rfl, rfl, Int.le_refl t, by simpa [timed] using h⟩
+      | hsetitem i2 k2 a2 => exact ⟨t, t, rfl, rfl, Int.le_refl t, by simpa [timed] using h⟩
+      | hpush s2 e => exact ⟨t, t, rfl, rfl, Int.le_refl t, by simpa [timed] using h⟩
 
 theorem logStreak_world_stamp (w : World) (l : Log) : (l.logStreak w).1.stamp = w.stamp := by
   unfold Log.logStreak
@@ -1275,6 +1344,34 @@ theorem step_world_stamp (s : S1) (op : Op) (hi : Inv s) (hok : ∀ c, op = .ctl
     split
     · exact act_world_stamp _ _
     · rfl
+
+/-! the logger empties queues in place (`value.pop()`, `value.popitem()`, `deck.popleft()`): it never
+binds a field to another object, so the references producers hold are left as they were -/
+
+theorem logStreak_held (w : World) (l : Log) : (l.logStreak w).1.held = w.held := by
+  unfold Log.logStreak
+  simp only []
+  repeat' split
+  all_goals rfl
+
+theorem logDeck_held (w : World) (l : Log) : (l.logDeck w).1.held = w.held := by
+  unfold Log.logDeck
+  simp only []
+  repeat' split
+  all_goals rfl
+
+theorem act_held (w : World) (l : Log) : (l.act w).1.held = w.held := by
+  unfold Log.act
+  repeat' split
+  all_goals first | rfl | exact logStreak_held w l | exact logDeck_held w l
+
+theorem ctl_held (s : S1) (c : Ctl) (hi : Inv s) (hok : ctlOk s.status c = true) :
+    (s.step (.ctl c)).1.world.held = s.world.held := by
+  simp only [S1.step]
+  rw [(send_recs s c hi hok).2.1]
+  split
+  · exact act_held _ _
+  · rfl
 
 /-- hypotheses threaded through a history: the invariant and the protocol, one step further -/
 theorem thread (s : S1) (op : Op) (rest : List Op) (hi : Inv s) (hp : proto s.status (op :: rest) = true) :
@@ -1517,6 +1614,24 @@ theorem setShare_other (w : World) (i j : Nat) (sh : Share) (h : j ≠ i) :
     (w.setShare i sh).shares j = w.shares j := by
   simp [World.setShare, h]
 
+theorem appendTo_share_stamp (w : World) (sid : Nat) (f : String) (a : Elem) (j : Nat) :
+    ((w.appendTo sid f a).shares j).stamp = (w.shares j).stamp := by
+  simp only [World.appendTo]
+  split
+  · by_cases h : j = sid
+    · subst h; simp [setShare_same]
+    · simp [setShare_other _ _ _ _ h]
+  · rfl
+
+theorem setitemTo_share_stamp (w : World) (sid : Nat) (f kk : String) (a : Atom) (j : Nat) :
+    ((w.setitemTo sid f kk a).shares j).stamp = (w.shares j).stamp := by
+  simp only [World.setitemTo]
+  split
+  · by_cases h : j = sid
+    · subst h; simp [setShare_same]
+    · simp [setShare_other _ _ _ _ h]
+  · rfl
+
 /-- share stamps after a writer operation -/
 theorem apply_share_stamp (w : World) (o : WOp) (j : Nat) :
     ((w.apply o).shares j).stamp =
@@ -1527,34 +1642,48 @@ theorem apply_share_stamp (w : World) (o : WOp) (j : Nat) :
   | setStamp t => rfl
   | advance d => rfl
   | write sid f v =>
-    simp only [World.apply]
+    simp only [World.apply, World.appendTo, World.setitemTo]
     by_cases h : j = sid
     · subst h; simp [setShare_same]
     · simp [setShare_other _ _ _ _ h, h]
   | poke sid f v =>
-    simp only [World.apply]
+    simp only [World.apply, World.appendTo, World.setitemTo]
     by_cases h : j = sid
     · subst h; simp [setShare_same]
     · simp [setShare_other _ _ _ _ h]
   | append sid f a =>
-    simp only [World.apply]
+    simp only [World.apply, World.appendTo, World.setitemTo]
     split
     · by_cases h : j = sid
       · subst h; simp [setShare_same]
       · simp [setShare_other _ _ _ _ h]
     · rfl
   | setitem sid f kk a =>
-    simp only [World.apply]
+    simp only [World.apply, World.appendTo, World.setitemTo]
     split
     · by_cases h : j = sid
       · subst h; simp [setShare_same]
       · simp [setShare_other _ _ _ _ h]
     · rfl
   | push sid e =>
-    simp only [World.apply]
+    simp only [World.apply, World.appendTo, World.setitemTo]
     by_cases h : j = sid
     · subst h; simp [setShare_same]
     · simp [setShare_other _ _ _ _ h]
+  | hpush sid e =>
+    simp only [World.apply, World.appendTo, World.setitemTo]
+    by_cases h : j = sid
+    · subst h; simp [setShare_same]
+    · simp [setShare_other _ _ _ _ h]
+  | hold s f => rw [(apply_hold_shares w s f).1]
+  | happend i e =>
+    rcases apply_happend_cases w i e with ⟨h, _, _, he⟩ | ⟨hs, _, _⟩
+    · rw [he]; exact appendTo_share_stamp w _ _ e j
+    · rw [hs]
+  | hsetitem i k a =>
+    rcases apply_hsetitem_cases w i k a with ⟨h, _, _, he⟩ | ⟨hs, _, _⟩
+    · rw [he]; exact setitemTo_share_stamp w _ _ k a j
+    · rw [hs]
 
 /-- `lateWriteOp` for a single log -/
 theorem lateWriteOp_single (s : S1) (op : Op) :
@@ -1595,6 +1724,10 @@ theorem U_step_w (i : Ideal) (o : WOp) (hu : InvU i) (hr : i.s.log.rule = .updat
     | append s2 f a => have := hsh sid σ h; omega
     | setitem s2 f kk a => have := hsh sid σ h; omega
     | push s2 e => have := hsh sid σ h; omega
+    | hold s2 f2 => have := hsh sid σ h; omega
+    | happend i2 e2 => have := hsh sid σ h; omega
+    | hsetitem i2 k2 a2 => have := hsh sid σ h; omega
+    | hpush s2 e => have := hsh sid σ h; omega
   refine ⟨hu.logged, ⟨t', hstamp', hshare', fun ls h => by have := hlg ls h; omega⟩, ?_⟩
   intro ls hls0
   have hls : i.s.log.stamp = some ls := hls0
@@ -1622,6 +1755,10 @@ theorem U_step_w (i : Ideal) (o : WOp) (hu : InvU i) (hr : i.s.log.rule = .updat
     | append s2 f a => simp [touches] at htouch
     | setitem s2 f kk a => simp [touches] at htouch
     | push s2 e => simp [touches] at htouch
+    | hold s2 f2 => simp [touches] at htouch
+    | happend i2 e2 => simp [touches] at htouch
+    | hsetitem i2 k2 a2 => simp [touches] at htouch
+    | hpush s2 e => simp [touches] at htouch
   · have htf : touches i.s.log o = false := by simpa using htouch
     have : anyNewer (i.s.world.apply o) ls i.s.log.loggees = anyNewer i.s.world ls i.s.log.loggees := by
       apply anyNewer_congr
@@ -1641,6 +1778,10 @@ theorem U_step_w (i : Ideal) (o : WOp) (hu : InvU i) (hr : i.s.log.rule = .updat
       | append s2 f a => rfl
       | setitem s2 f kk a => rfl
       | push s2 e => rfl
+      | hold s2 f2 => rfl
+      | happend i2 e2 => rfl
+      | hsetitem i2 k2 a2 => rfl
+      | hpush s2 e => rfl
     rw [this, htf, Bool.or_false]
     exact hd
 
@@ -2227,35 +2368,65 @@ theorem apply_keeps_field (w : World) (o : WOp) (sid : Nat) (f : String)
     (h : dget (w.shares sid).data f ≠ none) : dget ((w.apply o).shares sid).data f ≠ none := by
   have hset : ∀ (d : Dict Val) (k : String) (v : Val), dget d f ≠ none → dget (dset d k v) f ≠ none := by
     intro d k v hd; rw [dget_dset]; split <;> simp [hd]
+  have happ : ∀ s2 k a, dget ((w.appendTo s2 k a).shares sid).data f ≠ none := by
+    intro s2 k a
+    simp only [World.appendTo]
+    split
+    · by_cases hs : sid = s2
+      · subst hs; rw [setShare_same]; exact hset _ _ _ h
+      · rw [setShare_other _ _ _ _ hs]; exact h
+    · exact h
+  have hsetit : ∀ s2 k kk a, dget ((w.setitemTo s2 k kk a).shares sid).data f ≠ none := by
+    intro s2 k kk a
+    simp only [World.setitemTo]
+    split
+    · by_cases hs : sid = s2
+      · subst hs; rw [setShare_same]; exact hset _ _ _ h
+      · rw [setShare_other _ _ _ _ hs]; exact h
+    · exact h
   cases o with
   | setStamp t => exact h
   | advance d => exact h
-  | write s2 k v =>
+  | hold s2 f2 => rw [(apply_hold_shares w s2 f2).1]; exact h
+  | happend i e =>
+    rcases apply_happend_cases w i e with ⟨h', _, _, he⟩ | ⟨hs, _, _⟩
+    · rw [he]; exact happ _ _ _
+    · rw [hs]; exact h
+  | hsetitem i k a =>
+    rcases apply_hsetitem_cases w i k a with ⟨h', _, _, he⟩ | ⟨hs, _, _⟩
+    · rw [he]; exact hsetit _ _ _ _
+    · rw [hs]; exact h
+  | hpush s2 e =>
     simp only [World.apply]
+    by_cases hs : sid = s2
+    · subst hs; rw [setShare_same]; exact h
+    · rw [setShare_other _ _ _ _ hs]; exact h
+  | write s2 k v =>
+    simp only [World.apply, World.appendTo, World.setitemTo]
     by_cases hs : sid = s2
     · subst hs; rw [setShare_same]; exact hset _ _ _ h
     · rw [setShare_other _ _ _ _ hs]; exact h
   | poke s2 k v =>
-    simp only [World.apply]
+    simp only [World.apply, World.appendTo, World.setitemTo]
     by_cases hs : sid = s2
     · subst hs; rw [setShare_same]; exact hset _ _ _ h
     · rw [setShare_other _ _ _ _ hs]; exact h
   | append s2 k a =>
-    simp only [World.apply]
+    simp only [World.apply, World.appendTo, World.setitemTo]
     split
     · by_cases hs : sid = s2
       · subst hs; rw [setShare_same]; exact hset _ _ _ h
       · rw [setShare_other _ _ _ _ hs]; exact h
     · exact h
   | setitem s2 k kk a =>
-    simp only [World.apply]
+    simp only [World.apply, World.appendTo, World.setitemTo]
     split
     · by_cases hs : sid = s2
       · subst hs; rw [setShare_same]; exact hset _ _ _ h
       · rw [setShare_other _ _ _ _ hs]; exact h
     · exact h
   | push s2 e =>
-    simp only [World.apply]
+    simp only [World.apply, World.appendTo, World.setitemTo]
     by_cases hs : sid = s2
     · subst hs; rw [setShare_same]; exact h
     · rw [setShare_other _ _ _ _ hs]; exact h
@@ -2913,36 +3084,67 @@ theorem apply_deck (w : World) (o : WOp) (j : Nat) :
     ((w.apply o).shares j).deck =
       match o with
       | .push s e => if j = s then (w.shares j).deck ++ [e] else (w.shares j).deck
+      | .hpush s e => if j = s then (w.shares j).deck ++ [e] else (w.shares j).deck
       | _ => (w.shares j).deck := by
+  have happ : ∀ s2 k a, ((w.appendTo s2 k a).shares j).deck = (w.shares j).deck := by
+    intro s2 k a
+    simp only [World.appendTo]
+    split
+    · by_cases hs : j = s2
+      · subst hs; rw [setShare_same]
+      · rw [setShare_other _ _ _ _ hs]
+    · rfl
+  have hsetit : ∀ s2 k kk a, ((w.setitemTo s2 k kk a).shares j).deck = (w.shares j).deck := by
+    intro s2 k kk a
+    simp only [World.setitemTo]
+    split
+    · by_cases hs : j = s2
+      · subst hs; rw [setShare_same]
+      · rw [setShare_other _ _ _ _ hs]
+    · rfl
   cases o with
   | setStamp t => rfl
   | advance d => rfl
+  | hold s2 f2 => rw [(apply_hold_shares w s2 f2).1]
+  | happend i e =>
+    rcases apply_happend_cases w i e with ⟨h', _, _, he⟩ | ⟨hs, _, _⟩
+    · rw [he]; exact happ _ _ _
+    · rw [hs]
+  | hsetitem i k a =>
+    rcases apply_hsetitem_cases w i k a with ⟨h', _, _, he⟩ | ⟨hs, _, _⟩
+    · rw [he]; exact hsetit _ _ _ _
+    · rw [hs]
+  | hpush s2 e =>
+    simp only [World.apply]
+    by_cases hs : j = s2
+    · subst hs; rw [setShare_same]; simp
+    · rw [setShare_other _ _ _ _ hs]; simp [hs]
   | write s2 k v =>
-    simp only [World.apply]
+    simp only [World.apply, World.appendTo, World.setitemTo]
     by_cases hs : j = s2
     · subst hs; rw [setShare_same]
-    · rw [setShare_other _ _ _ _ hs]
+    · rw [setShare_other _ _ _ _ hs]; rfl
   | poke s2 k v =>
-    simp only [World.apply]
+    simp only [World.apply, World.appendTo, World.setitemTo]
     by_cases hs : j = s2
     · subst hs; rw [setShare_same]
-    · rw [setShare_other _ _ _ _ hs]
+    · rw [setShare_other _ _ _ _ hs]; rfl
   | append s2 k a =>
-    simp only [World.apply]
+    simp only [World.apply, World.appendTo, World.setitemTo]
     split
     · by_cases hs : j = s2
       · subst hs; rw [setShare_same]
       · rw [setShare_other _ _ _ _ hs]
     · rfl
   | setitem s2 k kk a =>
-    simp only [World.apply]
+    simp only [World.apply, World.appendTo, World.setitemTo]
     split
     · by_cases hs : j = s2
       · subst hs; rw [setShare_same]
       · rw [setShare_other _ _ _ _ hs]
     · rfl
   | push s2 e =>
-    simp only [World.apply]
+    simp only [World.apply, World.appendTo, World.setitemTo]
     by_cases hs : j = s2
     · subst hs; rw [setShare_same]; simp
     · rw [setShare_other _ _ _ _ hs]; simp [hs]
@@ -3013,6 +3215,14 @@ theorem deck_step (s : S1) (op : Op) (hi : Inv s) (hr : s.log.rule = .deck)
         · subst hs; simp [entryCells_append, pushed]
         · have : ¬ s2 = sid := fun h => hs h.symm
           simp [hs, this, entryCells, pushed]
+      | hpush s2 e =>
+        by_cases hs : sid = s2
+        · subst hs; simp [entryCells_append, pushed]
+        · have : ¬ s2 = sid := fun h => hs h.symm
+          simp [hs, this, entryCells, pushed]
+      | hold s2 f2 => simp [entryCells, pushed]
+      | happend i2 e2 => simp [entryCells, pushed]
+      | hsetitem i2 k2 a2 => simp [entryCells, pushed]
       | setStamp t => simp [entryCells, pushed]
       | advance d => simp [entryCells, pushed]
       | write s2 k v => simp [entryCells, pushed]
@@ -3079,26 +3289,71 @@ theorem deck_exec (s : S1) (h : List Op) (hi : Inv s) (hr : s.log.rule = .deck)
     | ctl c => simp [pushed]
     | w o =>
       cases o <;> simp only [pushed, List.nil_append]
-      split <;> simp
+      all_goals (split <;> simp)
 
 /-! ## streak: every appended element is logged once, in order -/
+
+theorem appendTo_queue (w : World) (s2 : Nat) (k : String) (a : Elem) (sid : Nat) (q : String)
+    (items : List Elem) (hq : dget (w.shares sid).data q = some (.list items)) :
+    dget ((w.appendTo s2 k a).shares sid).data q =
+      some (.list (items ++ (if s2 = sid ∧ k = q then [a] else []))) := by
+  simp only [World.appendTo]
+  by_cases hs : s2 = sid
+  · subst hs
+    by_cases hk : k = q
+    · subst hk
+      simp only [hq, and_self, if_true, setShare_same, dget_dset_same]
+    · have hk' : q ≠ k := fun e => hk e.symm
+      simp only [hk, and_false, if_false, List.append_nil]
+      split
+      · rw [setShare_same]; simp only [dget_dset_other _ _ _ _ hk']; exact hq
+      · exact hq
+  · have hs' : sid ≠ s2 := fun e => hs e.symm
+    simp only [hs, false_and, if_false, List.append_nil]
+    split
+    · rw [setShare_other _ _ _ _ hs']; exact hq
+    · exact hq
+
+theorem setitemTo_queue (w : World) (s2 : Nat) (k kk : String) (a : Atom) (sid : Nat) (q : String)
+    (items : List Elem) (hq : dget (w.shares sid).data q = some (.list items)) :
+    dget ((w.setitemTo s2 k kk a).shares sid).data q = some (.list items) := by
+  simp only [World.setitemTo]
+  by_cases hs : s2 = sid
+  · subst hs
+    by_cases hk : k = q
+    · subst hk
+      simp only [hq]
+    · have hk' : q ≠ k := fun e => hk e.symm
+      split
+      · rw [setShare_same]; simp only [dget_dset_other _ _ _ _ hk']; exact hq
+      · exact hq
+  · have hs' : sid ≠ s2 := fun e => hs e.symm
+    split
+    · rw [setShare_other _ _ _ _ hs']; exact hq
+    · exact hq
 
 /-- field `q` of share `sid` after a writer operation that does not overwrite it -/
 theorem apply_queue (w : World) (o : WOp) (sid : Nat) (q : String) (items : List Elem)
     (hq : dget (w.shares sid).data q = some (.list items))
     (hno : noOverwrite sid q [.w o] = true) :
-    dget ((w.apply o).shares sid).data q = some (.list (items ++ appended sid q [.w o])) := by
+    dget ((w.apply o).shares sid).data q = some (.list (items ++ queuedBy w sid q (.w o))) := by
   cases o with
-  | setStamp t => simpa [World.apply, appended] using hq
-  | advance d => simpa [World.apply, appended] using hq
+  | setStamp t => simpa [World.apply, queuedBy] using hq
+  | advance d => simpa [World.apply, queuedBy] using hq
   | push s2 e =>
-    simp only [World.apply, appended, List.append_nil]
+    simp only [World.apply, queuedBy, List.append_nil]
     by_cases hs : sid = s2
     · subst hs; rw [setShare_same]; exact hq
     · rw [setShare_other _ _ _ _ hs]; exact hq
+  | hpush s2 e =>
+    simp only [World.apply, queuedBy, List.append_nil]
+    by_cases hs : sid = s2
+    · subst hs; rw [setShare_same]; exact hq
+    · rw [setShare_other _ _ _ _ hs]; exact hq
+  | hold s2 f2 => rw [(apply_hold_shares w s2 f2).1]; simpa [queuedBy] using hq
   | write s2 k v =>
     simp only [noOverwrite, Bool.and_true, Bool.not_eq_true', Bool.and_eq_false_iff, beq_eq_false_iff_ne] at hno
-    simp only [World.apply, appended, List.append_nil]
+    simp only [World.apply, queuedBy, List.append_nil]
     by_cases hs : sid = s2
     · subst hs
       rw [setShare_same]
@@ -3110,7 +3365,7 @@ theorem apply_queue (w : World) (o : WOp) (sid : Nat) (q : String) (items : List
     · rw [setShare_other _ _ _ _ hs]; exact hq
   | poke s2 k v =>
     simp only [noOverwrite, Bool.and_true, Bool.not_eq_true', Bool.and_eq_false_iff, beq_eq_false_iff_ne] at hno
-    simp only [World.apply, appended, List.append_nil]
+    simp only [World.apply, queuedBy, List.append_nil]
     by_cases hs : sid = s2
     · subst hs
       rw [setShare_same]
@@ -3120,38 +3375,24 @@ theorem apply_queue (w : World) (o : WOp) (sid : Nat) (q : String) (items : List
         · exact fun e => h e.symm
       simp only [dget_dset_other _ _ _ _ hk]; exact hq
     · rw [setShare_other _ _ _ _ hs]; exact hq
-  | append s2 k a =>
-    simp only [World.apply, appended]
-    by_cases hs : s2 = sid
-    · subst hs
-      by_cases hk : k = q
-      · subst hk
-        simp only [hq, and_self, if_true, setShare_same, dget_dset_same]
-      · have hk' : q ≠ k := fun e => hk e.symm
-        simp only [hk, and_false, if_false, List.append_nil]
-        split
-        · rw [setShare_same]; simp only [dget_dset_other _ _ _ _ hk']; exact hq
-        · exact hq
-    · have hs' : sid ≠ s2 := fun e => hs e.symm
-      simp only [hs, false_and, if_false, List.append_nil]
-      split
-      · rw [setShare_other _ _ _ _ hs']; exact hq
-      · exact hq
+  | append s2 k a => exact appendTo_queue w s2 k a sid q items hq
   | setitem s2 k kk a =>
-    simp only [World.apply, appended, List.append_nil]
-    by_cases hs : s2 = sid
-    · subst hs
-      by_cases hk : k = q
-      · subst hk
-        simp only [hq]
-      · have hk' : q ≠ k := fun e => hk e.symm
-        split
-        · rw [setShare_same]; simp only [dget_dset_other _ _ _ _ hk']; exact hq
-        · exact hq
-    · have hs' : sid ≠ s2 := fun e => hs e.symm
-      split
-      · rw [setShare_other _ _ _ _ hs']; exact hq
-      · exact hq
+    simp only [queuedBy, List.append_nil]
+    exact setitemTo_queue w s2 k kk a sid q items hq
+  | happend i e =>
+    rcases apply_happend_cases w i e with ⟨h, hh, hlive, he⟩ | ⟨hs, _, hdead⟩
+    · rw [he, appendTo_queue w h.sid h.f e sid q items hq]
+      simp only [queuedBy, hh, hlive, true_and]
+    · rw [hs]
+      simp only [queuedBy]
+      cases hh : w.held[i]? with
+      | none => simpa using hq
+      | some h => simp [hdead h hh]; exact hq
+  | hsetitem i k a =>
+    simp only [queuedBy, List.append_nil]
+    rcases apply_hsetitem_cases w i k a with ⟨h, _, _, he⟩ | ⟨hs, _, _⟩
+    · rw [he]; exact setitemTo_queue w _ _ k a sid q items hq
+    · rw [hs]; exact hq
 
 def streakPhi (s : S1) (sid : Nat) (q : String) : List (List (Option Val)) :=
   s.recs.map (·.cells) ++ (pending s.world sid q).map fun e => [some e.toVal]
@@ -3171,7 +3412,7 @@ theorem streak_step (s : S1) (op : Op) (hi : Inv s) (hr : s.log.rule = .streak)
     (hq : dget (s.world.shares sid).data q = some (.list items))
     (hno : noOverwrite sid q [op] = true) :
     streakPhi (s.step op).1 sid q =
-      streakPhi s sid q ++ (appended sid q [op]).map (fun e => [some e.toVal]) ∧
+      streakPhi s sid q ++ (queuedBy s.world sid q op).map (fun e => [some e.toVal]) ∧
     (∃ qs', dget (s.step op).1.log.fields tag = some (q :: qs')) ∧
     (∃ items', dget ((s.step op).1.world.shares sid).data q = some (.list items')) ∧
     (∀ c, op = .ctl c → isRun s.status c = true → pending (s.step op).1.world sid q = []) := by
@@ -3208,7 +3449,7 @@ theorem streak_step (s : S1) (op : Op) (hi : Inv s) (hr : s.log.rule = .streak)
       have hq'' : dget ((s.step (.ctl c)).1.world.shares sid).data q = some (.list []) := by
         rw [hw', setShare_same]; exact dget_dset_same _ _ _
       refine ⟨?_, hfield, ⟨[], hq''⟩, fun _ _ _ => by simp [pending, hq'']⟩
-      simp only [streakPhi, pending, hq'', hq, appended, List.map_nil, List.append_nil]
+      simp only [streakPhi, pending, hq'', hq, queuedBy, List.map_nil, List.append_nil]
       simp only [S1.step, h1, hrun, if_true, hact, fileLines_some, recsOf_append, recsOf_records, f5,
         List.map_append]
       congr 1
@@ -3216,7 +3457,7 @@ theorem streak_step (s : S1) (op : Op) (hi : Inv s) (hr : s.log.rule = .streak)
     · have hnr : isRun s.status c = false := by simpa using hrun
       have hw' : (s.step (.ctl c)).1.world = s.world := by simp only [S1.step, h2, hnr]; rfl
       refine ⟨?_, hfield, ⟨items, by rw [hw']; exact hq⟩, fun c' hc' hr' => ?_⟩
-      · simp only [streakPhi, hw', appended, List.map_nil, List.append_nil]
+      · simp only [streakPhi, hw', queuedBy, List.map_nil, List.append_nil]
         simp only [S1.step, h1, hnr]
         rfl
       · cases hc'; exact absurd hr' hrun
@@ -3259,9 +3500,9 @@ theorem streak_exec (s : S1) (h : List Op) (hi : Inv s) (hr : s.log.rule = .stre
     (hl : s.log.loggees = (tag, sid) :: rest) (hf : dget s.log.fields tag = some (q :: qs))
     (hq : dget (s.world.shares sid).data q = some (.list items))
     (hno : noOverwrite sid q h = true) :
-    streakPhi (s.exec h) sid q = streakPhi s sid q ++ (appended sid q h).map (fun e => [some e.toVal]) := by
+    streakPhi (s.exec h) sid q = streakPhi s sid q ++ (queued s sid q h).map (fun e => [some e.toVal]) := by
   induction h generalizing s qs items with
-  | nil => simp [S1.exec, appended]
+  | nil => simp [S1.exec, queued]
   | cons op restops ih =>
     obtain ⟨hok, hi', hp'⟩ := thread s op restops hi hp
     have hno1 : noOverwrite sid q [op] = true ∧ noOverwrite sid q restops = true := by
@@ -3276,12 +3517,7 @@ theorem streak_exec (s : S1) (h : List Op) (hi : Inv s) (hr : s.log.rule = .stre
     simp only [S1.exec]
     rw [ih _ hi' (hsr.1.trans hr) hp' qs' items' (hsr.2.trans hl) d2 d3 hno1.2, d1, List.append_assoc,
       ← List.map_append]
-    congr 2
-    cases op with
-    | ctl c => simp [appended]
-    | w o =>
-      cases o <;> simp only [appended, List.nil_append]
-      split <;> simp
+    rfl
 
 /-! ## one header per new file -/
 
